@@ -148,6 +148,10 @@ func (proj *Project) loadIndex() error {
 		} else {
 			deps := make([]string, 0, len(info.Dependencies))
 			for k := range info.Dependencies {
+				// The graph of an indexed project is built from these labels.
+				if _, err := label.Parse(k); err != nil {
+					return fmt.Errorf("invalid record of %v: dependency %q: %w", l, k, err)
+				}
 				deps = append(deps, k)
 			}
 			sort.Strings(deps)
